@@ -23,6 +23,10 @@ func genTree(r *rand.Rand, depth int, cnt *int, parent *drive.Cmd, name string, 
 	for i := 0; i < r.Intn(3); i++ {
 		t.Aliases = append(t.Aliases, fmt.Sprintf("%s_al%d", name, i))
 	}
+	if parent != nil && r.Intn(10) == 0 {
+		// a name that starts with a dash (`Command("list -l", ...)`): still a name
+		t.Aliases = append(t.Aliases, []string{"--cmd-", "-y"}[r.Intn(2)]+fmt.Sprint(*cnt))
+	}
 	t.Prog = gen.GenProg(r, gen.Cfg{MaxOpts: 4, Depth: 1 + r.Intn(2)})
 	if r.Intn(3) == 0 {
 		t.Prog.Spec = ""
